@@ -28,7 +28,8 @@ def orig_cost_from_shapes(spec, which):
         if nd['k'] not in ('conv1d', 'conv2d', 'linear'):
             continue
         cin, cout = nd['cin'], nd['cout']
-        dw = nd['k'] != 'linear' and nd['groups'] > 1
+        # the built-in specs classify by the constraint in_channels == groups == out_channels (a 1 -> 1 convolution matches it)
+        dw = nd['k'] != 'linear' and nd['groups'] == cin and nd['groups'] == cout
         osp = list(sh[i][1:])
         if nd['k'] == 'conv1d':
             kk = [nd['ks']]
